@@ -43,7 +43,7 @@ RULE = (
     "i.e. the type's own validator (not the static type check) decides; distinct = distinct (tag, JSON text of the structure)."
 )
 ASSUMPTIONS = [
-    "leaves are finite floats (and ints in thorough) from the alphabet; NaN/inf, numeric strings, booleans and tuples are out of the alphabet by decision (DESIGN.md section 3)",
+    "leaves are finite floats (and ints in thorough) from the alphabet; NaN/inf, numeric strings and booleans are out of the alphabet by decision (DESIGN.md section 3); tuples and numpy / int leaves occur in the numtype space only (example structures)",
     "'rejected' = any ValueError subclass (pydantic.ValidationError included); anything else raised is a violation of no_object_on_reject",
     "a polygon needs at least one ring and a multi-polygon member at least one ring (read from 'the shape the type requires')",
     "reversed bounding boxes are valid input (normalised), reversed line strings are valid input (normalised), a reversed or vertical line of a multi-line string is invalid",
@@ -548,6 +548,12 @@ def precision_structs():
     for t in TYPES:
         for f in maps:
             yield mp(EXAMPLES[t], f)
+    # orderings decided by the last bit / by a few hundred nanoseconds at an hour's offset (strictly forward is an exact comparison)
+    yield [[[1.0, 0.0], [1.0000000000000002, 3.0]]]
+    yield [[[3600.0, 0.0], [3600.0000005, 3.0]]]
+    yield [[3600.0000005, 0.0], [3600.0, 3.0]]
+    yield [3600.0000005, 3600.0]
+    yield [3600.0000005, 3.0, 3600.0, 0.0]
     yield 4999999.999999999
     yield [0.1, 4999999.999999999]
     yield [0.1, 4999999.999999999, 0.7, 0.30000000000000004]
@@ -684,7 +690,7 @@ def blocks(tier):
 
 
 # ------------------------------------------------------------------ the same numbers as other numeric types
-NUMTYPES = ["int", "np.float64", "np.float32", "np.int64", "np.int32", "np.uint8"]
+NUMTYPES = ["int", "np.float64", "np.float32", "np.int64", "np.int32", "np.uint8", "tuples"]  # tuples: floats in tuples instead of lists
 
 
 def numtype_cases():
@@ -693,7 +699,7 @@ def numtype_cases():
     for t in TYPES:
         for bad in (False, True):
             for num in NUMTYPES:
-                if bad and num == "np.uint8":
+                if bad and num == "np.uint8":  # noqa
                     continue  # neither -1 nor MAX + 1 exists as uint8
                 yield {"sp": "numtype", "tag": t, "bad": bad, "num": num}
 
@@ -701,7 +707,8 @@ def numtype_cases():
 def run_numtype(case):
     import numpy as np
     conv = {"int": int, "np.float64": np.float64, "np.float32": np.float32, "np.int64": np.int64, "np.int32": np.int32,
-            "np.uint8": np.uint8}[case["num"]]
+            "np.uint8": np.uint8, "tuples": float}[case["num"]]
+    box = tuple if case["num"] == "tuples" else list
     t = case["tag"]
     c = EXAMPLES[t]
     if case["bad"]:
@@ -717,7 +724,7 @@ def run_numtype(case):
         c = spoil(c)
 
     def cv(x):
-        return [cv(y) for y in x] if isinstance(x, list) else conv(x)
+        return box(cv(y) for y in x) if isinstance(x, list) else conv(x)
     out = Out(case)
     exp = gm.valid(t, c)
     x = cv(c)
@@ -735,6 +742,8 @@ def run_numtype(case):
         for r in res:
             if _label(r) == "accept":
                 out.expect("normal_form", r.coordinates == norm, r.coordinates, norm, dict(cls, input="other-number-type"))
+                back = _try(lambda r=r: geometry_validate(r.model_dump_json()))
+                out.expect("json_roundtrip", _label(back) == "accept" and back == r, repr(back)[:120], repr(r)[:120], cls)
     else:
         for r in res:
             if _label(r) != "accept":
